@@ -226,7 +226,7 @@ def check(model, rep):
     from checks import c08
     dep = Report('C08')
     c08.check(model, dep)
-    rep.absorb(dep, {'C08.law.torque': 'C02.motor-law', 'C08.units': 'C02.motor-law.units'})
+    rep.absorb(dep, {'C08.law.torque': 'C02.motor-law', 'C08.units': 'C02.motor-law.units', 'C08.pure': 'C02.motor-law.pure'})
     rep.analysed.update({'run_paths': len(rm.paths), 'instant_contexts': len(ins)})
     rep.require('C02.driving', 2)
     rep.require('C02.load', 2)
